@@ -2081,6 +2081,19 @@ pub fn replay(case: &Value, args: &Args) -> i32 {
     let cyc = Cycle::build();
     let ctx = Ctx { cyc: &cyc, rec: &rec, prop, kf1_open: false, kf2_open: false, kf3_open: false };
     let kind = case["kind"].as_str().unwrap_or("");
+    if kind == "huge_results" || kind == "range_end_layout" {
+        // small deterministic sub-sweeps: re-run twice, the recorded case is among the ones they visit
+        for _ in 0..2 {
+            if kind == "huge_results" {
+                sweep_huge_results(&ctx);
+            } else {
+                sweep_range_end_errors(&ctx);
+            }
+        }
+        let bad = rec.viol_count.load(std::sync::atomic::Ordering::Relaxed) > 0;
+        println!("{}", if bad { "REPLAY: violation reproduced" } else { "REPLAY: case passes" });
+        return bad as i32;
+    }
     if kind != "search" && kind != "search_err" {
         println!("REPLAY: this case kind is a whole sub-sweep; re-run ./check {} quick", args.prop);
         return 2;
